@@ -67,7 +67,7 @@ func init() {
 	registry["C16"] = &propCfg{
 		Engine: fault.Engine{}, EngineName: "fault", Level: "fault_enumeration",
 		QuickRuns: 600000, ThoroughRuns: 8000000, QuickCapS: 60, ThoroughCapS: 900,
-		Rule: "one run = one generated event stream / document / Go value and a dry run counting W writes (sink side: json with options, ubjson, cborl encoders incl. extended events) or W visitor events (producer side: three parsers via Parse/ParseString/Write*/ParseReader/Decoder.Next under seeded chunking, gotype.Fold and Iterator.Fold over the type catalogue, EnsureExtVisitor adapters); then the failure is injected at EVERY index k<W (61 sampled + first/last if W>64); evaluations = injected executions; each is non-trivial (the fault fired) and distinct by (scenario, k)",
+		Rule: "one run = one generated event stream / document / Go value and a dry run counting W writes (sink side: json with options, ubjson, cborl encoders incl. extended events) or W visitor events (producer side: three parsers via Parse/ParseString/Write*/ParseReader/Decoder.Next under seeded chunking, gotype.Fold and Iterator.Fold over the type catalogue, a quarter with user-defined folders (gotype.Folders) that forward errors, EnsureExtVisitor adapters); then the failure is injected at EVERY index k<W (61 sampled + first/last if W>64); evaluations = injected executions; each is non-trivial (the fault fired) and distinct by (scenario, k)",
 		Components: map[string][]string{
 			"real": {"json/ubjson/cborl Visitor (encoders)", "json/ubjson/cborl Parser and Decoder", "gotype.Fold / Iterator", "EnsureExtVisitor adapters (array.go, map.go, string.go)"},
 			"stub": {"io.Writer (simkit.Writer, fails permanently from write k)", "downstream visitor (simkit.Tap returning a unique error at event k)", "io.Reader (simkit.Reader)"}},
@@ -85,7 +85,7 @@ func init() {
 	registry["C17"] = &propCfg{
 		Engine: reuse.Engine{}, EngineName: "reuse", Level: "exploration",
 		QuickRuns: 600000, ThoroughRuns: 8000000, QuickCapS: 60, ThoroughCapS: 900,
-		Rule: "one run = one long-lived instance of a drawn kind (json/ubjson/cborl encoder incl. extended events; push parser via Write under per-document chunk schedules; Parser.Parse/ParseString called repeatedly; byte and reader pull decoders; fold Iterator; Unfolder with SetTarget per document, optional Reset and key cache) processing a seeded history of 1-6 complete documents and then a probe; evaluations = histories executed; distinct by (kind, history, schedules, probe); every history is non-trivial (>= 1 prior document)",
+		Rule: "one run = one long-lived instance of a drawn kind (json/ubjson/cborl encoder incl. extended events; push parser via Write under per-document chunk schedules; Parser.Parse/ParseString called repeatedly; byte and reader pull decoders; fold Iterator, a quarter of them created with user-defined folders (gotype.Folders); Unfolder with SetTarget per document, optional Reset and key cache) processing a seeded history of 1-6 complete documents and then a probe; evaluations = histories executed; distinct by (kind, history, schedules, probe); every history is non-trivial (>= 1 prior document)",
 		Components: map[string][]string{
 			"real": {"json/ubjson/cborl Visitor", "json/ubjson/cborl Parser", "json/ubjson/cborl Decoder", "gotype.Iterator", "gotype.Unfolder"},
 			"stub": {"io.Writer (simkit.Writer)", "io.Reader (simkit.Reader)", "downstream visitor (simkit.Tap)"}},
@@ -112,7 +112,7 @@ func init() {
 	registry["C15"] = &propCfg{
 		Engine: alias.Engine{}, EngineName: "alias", Level: "exploration", Race: true,
 		QuickRuns: 30000, ThoroughRuns: 600000, QuickCapS: 50, ThoroughCapS: 900,
-		Rule: "one run = 1-4 documents (values of a string-bearing catalogue type, written by the independent writers in a drawn format) pushed through ONE parser/decoder and ONE unfolder (SetTarget per document, optional key cache) in an environment hostile to aliasing: chunk buffers scribbled after every Write, whole inputs scribbled after Parse/ParseReader/Next, small reused reader buffers, runtime.GC() at seeded event boundaries (GODEBUG=clobberfree=1), -race build with checkptr; 1 run in 5 instead folds a catalogue value into an encoder with and without GC between events; evaluations = scenarios; distinct by (format, entry, target, documents, schedules, GC points); all are non-trivial (every buffer the library saw is destroyed before the targets are read)",
+		Rule: "one run = 1-4 documents (values of a string-bearing catalogue type, written by the independent writers in a drawn format) pushed through ONE parser/decoder and ONE unfolder (SetTarget per document, optional key cache) in an environment hostile to aliasing: chunk buffers scribbled after every Write, whole inputs scribbled after Parse/ParseReader/Next, small reused reader buffers, runtime.GC() at seeded event boundaries (GODEBUG=clobberfree=1), -race build with checkptr; 1 run in 5 instead folds a catalogue value into an encoder (a third with user-defined folders, the fold_user.go function-pointer conversion) with and without GC between events; evaluations = scenarios; distinct by (format, entry, target, documents, schedules, GC points); all are non-trivial (every buffer the library saw is destroyed before the targets are read)",
 		Components: map[string][]string{
 			"real": {"json/ubjson/cborl Parser and Decoder", "gotype.Unfolder", "gotype.Fold", "json/ubjson/cborl Visitor", "internal/unsafe conversions under checkptr"},
 			"stub": {"caller buffers (simkit.Feed / scribbled slices)", "io.Reader (simkit.Reader)", "GC trigger (tap between producer and consumer)"}},
